@@ -90,9 +90,12 @@ static void vg_deliver(uint8_t *b, size_t len, size_t r)
 	_Bool vg_near = (size_t) (vg_dd + 12) < 44;   /* only -12..31 can hit b[0..32) */
 	int vg_d8 = (int) (signed char) (unsigned char) vg_dd;
 	__CPROVER_assume(vg_cur + r <= VG_POS_MAX);
+#ifndef VG_DELIVER_APPROX
 	if (len <= 32) {
 		VG_REP32(VG_RD_WR);
-	} else {
+	} else
+#endif
+	{
 		/* cell of vg_src[0] relative to b (may lie before b: bytes replayed earlier into the same buffer) */
 		uint8_t *base = b - VG_OFF(b);
 		size_t osz = __CPROVER_OBJECT_SIZE(b);
@@ -259,6 +262,31 @@ void *vg_memmove(void *dst, const void *src, size_t n)
 #define memmove vg_memmove
 #define memcpy vg_memmove
 
+/* ASSUME: memcmp(a, b, n) is 0 iff the first n bytes are equal, else the sign of the first difference;
+   strlen(s) is the index of the first NUL.  Loop-free models (a library function with a loop cannot be
+   called inside a loop that carries a contract); n <= 12 and length <= 15 are proof obligations. */
+#define VG_MC(k) if (r == 0 && (size_t) (k) < n && pa[k] != pb[k]) r = pa[k] < pb[k] ? -1 : 1
+int vg_memcmp(const void *a, const void *b, size_t n)
+{
+	const uint8_t *pa = (const uint8_t *) a, *pb = (const uint8_t *) b;
+	int r = 0;
+	__CPROVER_assert(n <= 12, "memcmp of at most 12 bytes");
+	__CPROVER_assert(__CPROVER_r_ok(a, n) && __CPROVER_r_ok(b, n), "memcmp operands readable");
+	VG_MC(0); VG_MC(1); VG_MC(2); VG_MC(3); VG_MC(4); VG_MC(5); VG_MC(6); VG_MC(7); VG_MC(8); VG_MC(9); VG_MC(10); VG_MC(11);
+	return r;
+}
+size_t vg_strlen(const char *s)
+{
+	size_t n = 16;
+#define VG_SL(k) if (n == 16 && s[k] == 0) n = (k)
+	VG_SL(0); VG_SL(1); VG_SL(2); VG_SL(3); VG_SL(4); VG_SL(5); VG_SL(6); VG_SL(7);
+	VG_SL(8); VG_SL(9); VG_SL(10); VG_SL(11); VG_SL(12); VG_SL(13); VG_SL(14); VG_SL(15);
+	__CPROVER_assert(n < 16, "strlen of a string of at most 15 characters");
+	return n;
+}
+#define memcmp vg_memcmp
+#define strlen vg_strlen
+
 /* the two FILE stream types are defined further down in the file; contracts above them name them */
 static const LHAInputStreamType file_source_owned;
 static const LHAInputStreamType file_source_unowned;
@@ -277,6 +305,9 @@ static void vg_havoc(void)
 	__CPROVER_assume(vg_tk >= VG_TK_LO && vg_tk <= VG_TK_HI);
 	vg_tp = vg_tk == 1 ? &vg_type_cb : vg_tk == 2 ? &vg_type_rd : vg_tk == 3 ? &file_source_owned : &file_source_unowned;
 	vg_hp = vg_tk <= 2 ? VG_HANDLE : (void *) VG_FILE;
+	/* assigned (not only required): CBMC resolves `stream->type->read` through the pointer's value set */
+	vg_st.type = vg_tp;
+	vg_st.handle = vg_hp;
 	vg_S = nondet_size_t(); vg_L0 = nondet_size_t(); vg_mark_pos = nondet_size_t();
 	vg_hit_skip = nondet_int(); vg_mark = nondet_bool();
 }
@@ -284,7 +315,7 @@ static void vg_havoc(void)
 void h_file_header_match(void) { uint8_t *b; vg_havoc(); file_header_match(b); VG_CANARY("file_header_match"); }
 void h_skip_sfx(void) { LHAInputStream *s; vg_havoc(); skip_sfx(s); VG_CANARY("skip_sfx"); }
 void h_empty_leadin(void) { LHAInputStream *s; size_t n; vg_havoc(); empty_leadin(s, n); VG_CANARY("empty_leadin"); }
-void h_read(void) { LHAInputStream *s; void *b; size_t n; vg_havoc(); __CPROVER_assert(vg_type_cb.read == vg_src_read && vg_type_rd.read == vg_src_read, "dbg types initialised"); __CPROVER_assert(vg_tp->read == vg_src_read, "dbg tp"); lha_input_stream_read(s, b, n); VG_CANARY("lha_input_stream_read"); }
+void h_read(void) { LHAInputStream *s; void *b; size_t n; vg_havoc(); lha_input_stream_read(s, b, n); VG_CANARY("lha_input_stream_read"); }
 void h_skip(void) { LHAInputStream *s; size_t n; vg_havoc(); lha_input_stream_skip(s, n); VG_CANARY("lha_input_stream_skip"); }
 void h_new(void) { const LHAInputStreamType *t; void *h; vg_havoc(); lha_input_stream_new(t, h); VG_CANARY("lha_input_stream_new"); }
 void h_free(void) { LHAInputStream *s; vg_havoc(); lha_input_stream_free(s); VG_CANARY("lha_input_stream_free"); }
@@ -304,4 +335,93 @@ void h_types(void)
 	                 file_source_unowned.close == NULL, "unowned FILE type: same read/skip, no close");
 	__CPROVER_assert(LEADIN_BUFFER_LEN == 24 && sizeof(vg_st.leadin) == 24 && VG_SRC_MAX == 13, "harness constants equal the code's");
 	VG_CANARY("types");
+}
+
+/* ---- bounded whole-run check of skip_sfx (real code, loops unwound): a source of n <= VG_BN arbitrary bytes,
+   delivered in arbitrary chunkings, against the scan the format documents. ---- */
+#ifndef VG_BN
+#define VG_BN 56
+#endif
+uint8_t vg_bsrc[VG_BN + 13];    /* 13 bytes of padding so that window predicates never index out of bounds */
+size_t vg_bn, vg_bcur, vg_bchunk;
+#ifndef VG_BCHUNK
+#define VG_BCHUNK 0
+#endif
+/* ASSUME (bounded group): the source hands out its n bytes in arbitrary non-empty chunks, then reports end of input. */
+#define VG_B_WR(k) if ((size_t) (k) < (size_t) r) b[k] = vg_bsrc[vg_bcur + (k)]
+int vg_bsrc_read(void *handle, void *buf, size_t len)
+{
+	uint8_t *b = (uint8_t *) buf;
+	int r = nondet_int();
+	__CPROVER_assert(len <= 24 && __CPROVER_w_ok(buf, len), "bounded source: skip_sfx asks for at most 24 bytes into a valid buffer");
+	if (vg_bcur >= vg_bn || len == 0) return 0;
+	__CPROVER_assume(r >= 1 && (size_t) r <= len && (size_t) r <= vg_bn - vg_bcur);
+#if VG_BCHUNK == 1
+	/* greedy source: always as much as asked for and available */
+	__CPROVER_assume((size_t) r == len || (size_t) r == vg_bn - vg_bcur);
+#elif VG_BCHUNK == 3
+	/* source that delivers chunks of the constant size VG_BC (less only when less is asked for or left) */
+	__CPROVER_assume((size_t) r == VG_BC || ((size_t) r < VG_BC && ((size_t) r == len || (size_t) r == vg_bn - vg_bcur)));
+#elif VG_BCHUNK == 2
+	/* source with a fixed (arbitrary) chunk size vg_bchunk */
+	__CPROVER_assume((size_t) r == vg_bchunk || ((size_t) r < vg_bchunk && ((size_t) r == len || (size_t) r == vg_bn - vg_bcur)));
+#endif
+	VG_REP24(VG_B_WR);
+	vg_bcur += (size_t) r;
+	return r;
+}
+const LHAInputStreamType vg_type_b = { vg_bsrc_read, NULL, NULL };
+
+void h_skip_sfx_bounded(void)
+{
+	size_t o, j, first_sig = VG_BN, second_sig = VG_BN, ref_pos = 0;
+	int ref_found = 0, skip = 0, ret, mark_before_first = 0, mark_between = 0;
+	__CPROVER_havoc_object(vg_bsrc);
+	__CPROVER_havoc_object(&vg_st);
+	vg_bn = nondet_size_t();
+	__CPROVER_assume(vg_bn <= VG_BN);
+	vg_bcur = 0;
+	vg_bchunk = nondet_size_t();
+	__CPROVER_assume(vg_bchunk >= 1 && vg_bchunk <= 24);
+	vg_st.type = &vg_type_b; vg_st.handle = VG_HANDLE; vg_st.state = LHA_INPUT_STREAM_INIT; vg_st.leadin_len = 0;
+
+	ret = skip_sfx(&vg_st);
+
+	/* the documented scan: offsets in order, each needs 13 bytes of look-ahead; a marker arms the skipping of one header */
+	for (o = 0; o < VG_BN; o++) {
+		if (o + 13 <= vg_bn && !ref_found) {
+			if (VG_SIG(vg_bsrc + o)) {
+				if (skip == 0) { ref_found = 1; ref_pos = o; } else { skip = 0; }
+			}
+			if (!ref_found && VG_MARK(vg_bsrc + o)) skip = 1;
+		}
+	}
+	__CPROVER_assert(ret == ref_found, "bounded C16: skip_sfx finds a header iff the documented scan does");
+	if (ref_found) {
+		__CPROVER_assert(vg_bcur - vg_st.leadin_len == ref_pos && vg_st.leadin_len >= 13 && vg_st.leadin_len <= 24,
+		                 "bounded C16: logical position after skip_sfx is the offset the documented scan finds");
+		for (j = 0; j < 24; j++) {
+			if (j < vg_st.leadin_len)
+				__CPROVER_assert(vg_st.leadin[j] == vg_bsrc[ref_pos + j], "bounded C16: lead-in buffer replays the source from the header on");
+		}
+	}
+	/* the two cases of the property statement, stated directly */
+	for (o = 0; o < VG_BN; o++) {
+		if (o + 13 <= vg_bn) {
+			if (VG_SIG(vg_bsrc + o)) {
+				if (first_sig == VG_BN) first_sig = o; else if (second_sig == VG_BN) second_sig = o;
+			}
+			if (VG_MARK(vg_bsrc + o)) {
+				if (first_sig == VG_BN) mark_before_first = 1;
+				else if (second_sig == VG_BN) mark_between = 1;   /* marker at or after the first signature, before the second */
+			}
+		}
+	}
+	if (first_sig < VG_BN && !mark_before_first)
+		__CPROVER_assert(ret == 1 && vg_bcur - vg_st.leadin_len == first_sig,
+		                 "bounded C16: a prefix without signature and marker is skipped; the first header is found");
+	if (second_sig < VG_BN && mark_before_first && !mark_between)
+		__CPROVER_assert(ret == 1 && vg_bcur - vg_st.leadin_len == second_sig,
+		                 "bounded C16: after a marker exactly one decoy header is skipped");
+	VG_CANARY("skip_sfx_bounded");
 }
